@@ -52,6 +52,19 @@ fn gen_source(rng: &mut Rng, stack: bool, prev_labels: &[String]) -> (String, &'
             t.push_str("br L1\nhalt\n");
             (t, "many_labels")
         }
+        0 if rng.chance(1, 3) => {
+            // the first labelled line fails behind its label, or the only label stands before `.orig` / `.break`:
+            // the name was recorded all the same, and the next source may use it again
+            let l = if prev_labels.is_empty() || rng.bool() { "loop".to_string() } else { rng.pick(prev_labels).clone() };
+            let t = match rng.below(5) {
+                0 => format!("{} ad r1 r1 #-1\nbrp {}\nhalt\n", l, l),
+                1 => format!("{} add r1\nhalt\n", l),
+                2 => format!("{} .orig x3000\nadd r0 r0 #1\nhalt\n", l),
+                3 => format!("add r0 r0 #1\n{} .break\n", l),
+                _ => format!("{} add r1 r1 #99\n", l),
+            };
+            (t, "label_recorded_by_a_line_that_fails_or_has_no_statement")
+        }
         0 => (rng.s(&["add r0 r0 #99\n", "x\u{e9} add r0 r0 r0\n@\n", ".stringz \"open\nhalt\n", ".bogus\n", "#70000\n",
             // a stack mnemonic: a lexer error exactly when the feature is off
             "push r0\nhalt\n", "lab pop r1\n", "add r0 r0 #1\ncall sub\nsub rets\n", "RETS\n"]).to_string(), "lexer_or_parser"),
